@@ -86,7 +86,7 @@ def oracle_history(launches):
 # ------------------------------------------------------------------ generation
 def relaunches(rng, quick):
     """1-3 further launches of the same script; all but the last may die too."""
-    k = rng.choice([1, 1, 1, 2] if quick else [1, 2, 3])
+    k = rng.choice([1, 1, 1, 2] if quick else [1, 1, 2, 3])
     out = []
     for j in range(k):
         l = dict(mode=rng.choice(MODES + ["ok", "ok"]))
@@ -99,8 +99,9 @@ def relaunches(rng, quick):
 def run(c: Check):
     c.rule = ("every (initial directory: fresh / success marker present / stale failure marker) x body outcome "
               "(return, exception, sys.exit(3), sys.exit(0), other BaseException) x signal (KILL, TERM, INT) x "
-              "n-th executed line of run.py or of the task body (quick: every 4th line - for outcomes other than return only from the start of the body on - plus all body points; thorough: "
-              "every line; on a directory with a stale failure marker 2 resp. 3 of the outcomes), followed by 1-3 relaunches with random outcomes and deaths; non-trivial = the signal was "
+              "n-th executed line of run.py or of the task body (lines before the body only for the outcome `return`, the other outcomes from the first body line on; "
+              "quick: every 4th line plus all body points; thorough: every line; on a directory with a stale failure "
+              "marker 2 resp. 3 of the outcomes), followed by 1-3 relaunches with random outcomes and deaths; non-trivial = the signal was "
               "delivered, distinct by (initial directory, outcome, signal, line index)")
     if "model/Runner.v" in (COQ / "_CoqProject").read_text():
         c.build()
@@ -142,12 +143,12 @@ def run(c: Check):
                 continue  # a stale failure marker only adds RmFailed: fewer outcomes there
             lines = r["lines"]
             ns = set(range(1, len(lines) + 1))
+            if r["mode"] != "ok":  # before the body starts all outcomes execute the same lines in the same state
+                first_body = min(n for n, t in enumerate(lines, 1) if t.startswith("task:"))
+                ns = {n for n in ns if n >= first_body}
             if c.quick:
                 off = c.rng.randrange(4)
                 ns = {n for n in ns if n % 4 == off}
-                if r["mode"] != "ok":  # before the body starts all outcomes execute the same lines
-                    first_body = min(n for n, t in enumerate(lines, 1) if t.startswith("task:"))
-                    ns = {n for n in ns if n >= first_body}
                 if r["prefix"] == "fresh" and r["mode"] in ("ok", "raise"):
                     ns |= {n for n, t in enumerate(lines, 1) if t.startswith("task:")}
             for n in sorted(ns):
@@ -160,7 +161,7 @@ def run(c: Check):
                                       launches=[dict(mode=m) for m in PREFIXES[r["prefix"]]]
                                       + [dict(mode=r["mode"], sig=sig, n=n)] + relaunches(c.rng, c.quick)))
     todo = [x for x in cases if "ans" not in x]
-    ans = run_impl("drive_c10.py", dict(scratch=str(scratch / "sweep"), cases=todo), timeout=3000)
+    ans = run_impl("drive_c10.py", dict(scratch=str(scratch / "sweep"), cases=todo), timeout=1500 if c.quick else 7000)
     for x, a in zip(todo, ans):
         x["ans"] = a["launches"]
 
